@@ -1680,3 +1680,61 @@ func ruleF5(r *Run) {
 		r.Undec("pointer-taking writers", 0, "none found")
 	}
 }
+
+// ---------------------------------------------------------------------------------------------------
+// S12 the net/http client accepts a response only for the request it sent
+
+func init() {
+	register("S12", "the net/http client transport, which lets http.Client follow redirects, reads a response body only after it has compared the method of the request that was finally answered (resp.Request.Method) with the one it sent: a 301/302/303 redirect turns the POST into a GET without a body, and the answer to that GET (the function list) would otherwise be returned as the result of the call", 1, ruleS12)
+}
+
+func ruleS12(r *Run) {
+	p := r.P
+	fd, pkg := p.DeclOf("rpc/http", "Transport.Transport")
+	key := "rpc/http.Transport.Transport checks which request was answered"
+	if fd == nil {
+		r.Undec(key, 0, "not found")
+		return
+	}
+	info := pkg.TypesInfo
+	var doPos, bodyUse, cmpPos token.Pos
+	ast.Inspect(fd.Body, func(m ast.Node) bool {
+		switch x := m.(type) {
+		case *ast.CallExpr:
+			if methodName(x) == "Do" && doPos == 0 {
+				if f := Callee(info, x); f != nil && f.Pkg() != nil && f.Pkg().Path() == "net/http" {
+					doPos = x.Pos()
+				}
+			}
+			// the body handed on (readAll(resp.Body, ..))
+			for _, a := range x.Args {
+				if se, ok := ast.Unparen(a).(*ast.SelectorExpr); ok && se.Sel.Name == "Body" && !strings.HasSuffix(types.ExprString(x.Fun), "Close") && bodyUse == 0 {
+					bodyUse = x.Pos()
+				}
+			}
+		case *ast.BinaryExpr:
+			if x.Op == token.EQL || x.Op == token.NEQ {
+				s := types.ExprString(x)
+				if strings.Contains(s, ".Request.Method") && cmpPos == 0 {
+					cmpPos = x.Pos()
+				}
+			}
+		}
+		return true
+	})
+	if doPos == 0 {
+		r.Undec(key, fd.Pos(), "no http.Client.Do call found")
+		return
+	}
+	// a client configured not to follow redirects needs no check
+	noFollow := false
+	for _, file := range pkg.Syntax {
+		ast.Inspect(file, func(m ast.Node) bool {
+			if id, ok := m.(*ast.Ident); ok && id.Name == "ErrUseLastResponse" {
+				noFollow = true
+			}
+			return true
+		})
+	}
+	r.Check(noFollow || cmpPos > doPos && (bodyUse == 0 || cmpPos < bodyUse), key, fd.Pos(), "resp.Request.Method compared after Do and before the body is read", "the response of http.Client.Do is taken for the answer to the call without looking at resp.Request: when the server (a ServeMux redirecting /rpc to /rpc/) answers 301, 302 or 303, net/http re-issues the call as a GET without the request bytes, the service is handed an empty request and the caller receives the function list as its result, with no error")
+}
